@@ -1625,9 +1625,15 @@ public:
     // ---- main loop -------------------------------------------------------------------------------
     void run() {
         // every program starts with one storage; C13 programs create their own as well
-        if (create_storage("s") != status::OK) { fail("harness", "create_storage(s) failed"); }
-        model["s"];
-        note("create_storage(\"s\")");
+        // every program starts with one storage "s" -- except some of the multi-storage programs, which start on a system where no
+        // storage was ever created (data and DDL operations on unknown names hit the empty storage directory)
+        if (!pf_.multi_storage || c_.chance(3, 4)) {
+            if (create_storage("s") != status::OK) { fail("harness", "create_storage(s) failed"); }
+            model["s"];
+            note("create_storage(\"s\")");
+        } else {
+            classes.insert("starts_without_any_storage");
+        }
         std::size_t nops = 0;
         while (!c_.exhausted() && nops < pf_.max_ops) {
             ++nops;
